@@ -39,7 +39,7 @@ def gen_harness(preds, e):
             o.append("  { U8 bytes[8] = {%s}; Buffer b; %s r = 0; b.data = bytes; b.length = %d; (void)%s(&b, &r); dump(%d, m, &r, %d); }" % (
                 ",".join(map(str, p["v"])), "I32" if n == 4 else "I64", n, p["op"], idx, n))
             continue
-        o.append("  for (i = 0; i < 24; i++) m->data[i] = (U8)(17 + i);")
+        o.append("  for (i = 0; i < 24; i++) m->data[i] = (U8)((i + 1) % 2 ? 128 + (i + 1) : 16 + (i + 1));      /* = Mem0 of Endian.tla */")
         a = p["a"]
         rn = len(p["ret"])
         rt = {"f32": "F32", "f64": "F64"}.get(p["op"].split(".")[0], CT.get(rn, "U32"))
@@ -89,11 +89,13 @@ def main():
         # bulk operations and data segments are not reversed
         inst = {"op": "instantiate", "binds": {"mem": 0, "table": 0, "globals": []}}
         # (a) same-width store/load round trips through emitted code: results independent of the configuration
+        RT = (("i64.store", "i64.load"), ("i64.store32", "i64.load32_s"), ("i64.store32", "i64.load32_u"), ("i64.store16", "i64.load16_u"),
+              ("i64.store16", "i64.load16_s"), ("i64.store8", "i64.load8_s"), ("i64.store8", "i64.load8_u"))
         rt = {"types": [{"p": ["i32", "i64"], "r": ["i64"]}],
               "funcs": [{"type": 0, "locals": [], "body": [["local.get", 0], ["local.get", 1], [sop, 0, 3], ["local.get", 0], [lop, 0, 3], ["end"]]}
-                        for sop, lop in (("i64.store", "i64.load"), ("i64.store32", "i64.load32_s"), ("i64.store16", "i64.load16_u"), ("i64.store8", "i64.load8_s"))],
+                        for sop, lop in RT],
               "memory": {"min": 1, "max": 1},
-              "exports": [{"name": "rt%d" % k, "kind": "func", "idx": k} for k in range(4)]}
+              "exports": [{"name": "rt%d" % k, "kind": "func", "idx": k} for k in range(len(RT))]}
         # (b) bulk byte movers and data segments: the raw image must be the same bytes in both configurations
         bulk = {"types": [{"p": [], "r": []}],
                 "funcs": [{"type": 0, "locals": [], "body": [["i32.const", b32(40)], ["i32.const", b32(100)], ["i32.const", b32(4)], ["memory.copy"],
@@ -106,10 +108,29 @@ def main():
         builds = [{"name": "le", "cc": "gcc", "cflags": ("-O1",)}, {"name": "be-forced", "cc": "gcc", "cflags": ("-O1",), "defs": ("-DWASM_ENDIAN=1",)}]
         sg = lambda it, k, why, b, e_, a: "endian:module:%s:%s:%s" % (it["id"], b["name"], why.split(":")[0])
         st, exp = machine.replay(v, [{"id": "roundtrip", "module": rt, "script": [inst] + [
-            {"op": "call", "inst": 1, "export": "rt%d" % k, "args": [{"t": "i32", "b": b32(a_)}, {"t": "i64", "b": b64(0x8877665544332211)}]}
-            for k in range(4) for a_ in (8, 13)]}], builds, sigfn=sg, observe_mems=False)
+            {"op": "call", "inst": 1, "export": "rt%d" % k, "args": [{"t": "i32", "b": b32(a_)}, {"t": "i64", "b": b64(val_)}]}
+            for k in range(len(RT)) for a_ in (8, 13) for val_ in (0x8877665544332211, 0x1122334455667788, 0x7F80FF01F2E3D4C5)]}], builds, sigfn=sg, observe_mems=False)
         st2, _ = machine.replay(v, [{"id": "bulk", "module": bulk, "script": [inst, {"op": "call", "inst": 1, "export": "bulk", "args": []}]}],
                                 builds, sigfn=sg, observe_mems=True)
+        # (c) the cell examined by memory.atomic.wait is an atomic access like any other: written by a same-width store, it
+        #     compares equal to the value stored (the wait then times out: 2) and unequal to its byte reversal (1)
+        wt = {"types": [{"p": ["i32", "i64"], "r": ["i32"]}],
+              "funcs": [{"type": 0, "locals": [], "body": [["local.get", 0], ["local.get", 1], ["i32.wrap_i64"], ["i32.store", 2, 0], ["i32.const", b32(0)], ["end"]]},
+                        {"type": 0, "locals": [], "body": [["local.get", 0], ["local.get", 1], ["i64.store", 3, 0], ["i32.const", b32(0)], ["end"]]},
+                        {"type": 0, "locals": [], "body": [["local.get", 0], ["local.get", 1], ["i32.wrap_i64"], ["i64.const", b64(1000000)], ["memory.atomic.wait32", 2, 0], ["end"]]},
+                        {"type": 0, "locals": [], "body": [["local.get", 0], ["local.get", 1], ["i64.const", b64(1000000)], ["memory.atomic.wait64", 3, 0], ["end"]]}],
+              "memory": {"min": 1, "max": 1, "shared": True},
+              "exports": [{"name": n, "kind": "func", "idx": k} for k, n in enumerate(["s32", "s64", "w32", "w64"])]}
+        call = lambda e_, a_, v_: {"op": "call", "inst": 1, "export": e_, "args": [{"t": "i32", "b": b32(a_)}, {"t": "i64", "b": b64(v_)}]}
+        futex_srcs = [os.path.join(REPO, "futex", f) for f in ("futex.c", "map.c", "list.c")]
+        wbuilds = [dict(b, extra_srcs=futex_srcs) for b in builds]
+        st3, _ = machine.replay(v, [{"id": "wait", "module": wt, "script": [inst, call("s32", 64, 0x01020304), call("w32", 64, 0x01020304), call("w32", 64, 0x04030201),
+                                                                         call("s32", 64, 1), call("w32", 64, 1), call("w32", 64, 0x01000000),
+                                                                         call("s64", 128, 0x0102030405060708), call("w64", 128, 0x0102030405060708), call("w64", 128, 0x0807060504030201),
+                                                                         call("s64", 128, 2), call("w64", 128, 2), call("w64", 128, 0x0200000000000000)]}],
+                                wbuilds, sigfn=sg, observe_mems=False)
+        for x in ("states", "transitions", "ops_compared"):
+            st[x] += st3[x]
         st["states"] += st2["states"]
         st["transitions"] += st2["transitions"]
         st["ops_compared"] += st2["ops_compared"]
